@@ -176,9 +176,14 @@ class ShutScenario(NetScenario):
                     st.b_log.append("done")
                     return Message(payload=b"bslow")
 
+            st.b_observers = [0]
+
             class BOb(resource.ObservableResource):
                 async def render_get(self, request):
                     return Message(payload=b"bo")
+
+                def update_observation_count(self, newcount):
+                    st.b_observers[0] = newcount
             st.bob = BOb()
             bsite.add_resource(["slow"], BSlow())
             bsite.add_resource(["obs"], st.bob)
@@ -392,6 +397,7 @@ class ShutScenario(NetScenario):
                                            st.handler_log, "tokenmanager.py:shutdown", {}, key="handler"))
         if st.b is not None:
             st.b_sent_at_return = len([d for d in w.sent if d.src == BSRV])
+            st.b_expect_note = st.b_observers[0] > 0     # (its observer's registration may have been lost or not have arrived yet)
             st.bob.updated_state()
             w.loop.settle()
         # a request submitted after shutdown fails at once with the shutdown error
@@ -422,10 +428,10 @@ class ShutScenario(NetScenario):
                                            "protocol.py", {}, key="bystander"))
         if st.b is not None and st.shut_done_at is not None:
             # the other server context in the process: its handler ran to the end, its observer is still served
-            if "cancelled" in st.b_log or st.b_log.count("done") != 1:
+            if "cancelled" in st.b_log or st.b_log.count("done") != st.b_log.count("start"):
                 st.violations.append(Violation("bystander-affected", "the other context's handler completes", st.b_log, "tokenmanager.py:shutdown", {}, key="bystander-handler"))
             notes = [d for d in w.sent if d.src == BSRV][st.b_sent_at_return:]
-            if not any(d.data[1] == 69 and b"bo" in d.data for d in notes):
+            if st.b_expect_note and not any(d.data[1] == 69 and b"bo" in d.data for d in notes):
                 st.violations.append(Violation("bystander-affected", "the other context still notifies its observer", [repr(d) for d in notes],
                                                "tokenmanager.py:shutdown", {}, key="bystander-observer"))
         obytes = [(d.src, d.dst, d.data) for d in w.sent if OCTX in (d.src, d.dst)]
